@@ -462,3 +462,97 @@ func TestC05_WrapperRead(t *testing.T) {
 		vkCase(unit, key, func() any { m := s.Summary(); m["readSizes"] = sizes; return m }, cl...)
 	})
 }
+
+// TestC05_ChunkedSplice: the fallback copy path taken when no splice pipe can be
+// obtained (relaySpliceCopyExact -> relayChunkedSpliceCopy: EMFILE, SyscallConn
+// failure). There is no seam to make pipe acquisition fail inside a relay, so the real
+// function is driven directly on loopback TCP pairs: payloads of 1 B - 2 MiB around
+// the 256 KiB accounting chunk, exact-bytes oracle, recorder sum, byte-level facts only.
+func TestC05_ChunkedSplice(t *testing.T) {
+	const unit = "C05.chunked"
+	chunk := int(relaySpliceAccountingChunkSize)
+	rapid.Check(t, func(rt *rapid.T) {
+		var n int
+		switch rapid.IntRange(0, 5).Draw(rt, "sizeClass") {
+		case 0:
+			n = rapid.IntRange(1, 5000).Draw(rt, "size")
+		case 1, 2: // at and around multiples of the accounting chunk
+			n = rapid.IntRange(1, 4).Draw(rt, "chunks")*chunk + rapid.SampledFrom([]int{-1, 0, 1, 4096, -4096}).Draw(rt, "delta")
+		case 3:
+			n = rapid.IntRange(chunk+1, 2<<20).Draw(rt, "size")
+		default:
+			n = rapid.IntRange(5001, chunk).Draw(rt, "size")
+		}
+		seed := rapid.Uint64().Draw(rt, "seed")
+		payload := c05Fill(seed, n)
+		segs := c05Cuts(rt, "seg", n, []int{chunk - 1, chunk, chunk + 1, 2 * chunk})
+		rd := rapid.SampledFrom([]int{512, 4096, 65536, 1 << 20}).Draw(rt, "readChunk")
+		sockBuf := rapid.SampledFrom([]int{0, 0, 4096, 65536}).Draw(rt, "sockBuf")
+		if sockBuf == 4096 && n > 300<<10 {
+			sockBuf = 65536
+		}
+		cn, err := c05TCPConnsBuf(rapid.Bool().Draw(rt, "v6"), sockBuf)
+		if err != nil {
+			rt.Fatalf("harness: loopback sockets unavailable: %v", err)
+		}
+		defer func() {
+			for _, c := range []net.Conn{cn.client, cn.left, cn.right, cn.upstream} {
+				_ = c.Close()
+			}
+		}()
+		var recorded atomic.Int64
+		type res struct {
+			n   int64
+			err error
+		}
+		copied := make(chan res, 1)
+		go func() {
+			w, err := relayChunkedSpliceCopy(context.Background(), cn.right.(*net.TCPConn), cn.left.(*net.TCPConn), func(k int64) { recorded.Add(k) })
+			_ = cn.right.(*net.TCPConn).CloseWrite() // what relayCore does when a direction has ended
+			copied <- res{w, err}
+		}()
+		go func() {
+			off := 0
+			for _, sz := range segs {
+				if _, err := cn.client.Write(payload[off : off+sz]); err != nil {
+					return
+				}
+				off += sz
+			}
+			_ = cn.client.(*net.TCPConn).CloseWrite()
+		}()
+		var got []byte
+		buf := make([]byte, rd)
+		var rerr error
+		for {
+			k, err := cn.upstream.Read(buf)
+			got = append(got, buf[:k]...)
+			if err != nil {
+				if err != io.EOF {
+					rerr = err
+				}
+				break
+			}
+			if len(got) > n+1024 {
+				break
+			}
+		}
+		r := <-copied
+		if !bytes.Equal(got, payload) {
+			rt.Fatalf("fallback copy (no splice pipe): stream differs: %s (copy returned n=%d err=%v, reader err=%v, segs=%d sockBuf=%d)", c05Diverge(got, payload), r.n, r.err, rerr, len(segs), sockBuf)
+		}
+		if r.err != nil || r.n != int64(n) || recorded.Load() != int64(n) {
+			rt.Fatalf("fallback copy of %d bytes returned n=%d err=%v, recorder counted %d", n, r.n, r.err, recorded.Load())
+		}
+		cl := []string{"le_one_chunk"}
+		if n > chunk {
+			cl = []string{"gt_one_chunk"}
+		}
+		if n%chunk == 0 {
+			cl = append(cl, "exact_multiple_of_chunk")
+		}
+		vkCase(unit, fmt.Sprintf("%d|%x|%v|%d|%d", n, seed, segs, rd, sockBuf), func() any {
+			return map[string]any{"bytes": n, "segments": len(segs), "readChunk": rd, "sockBuf": sockBuf}
+		}, cl...)
+	})
+}
